@@ -368,7 +368,7 @@ Proof.
       cbn [map forallb snd] in Hr. apply andb_true_iff in Hr as [Hc' _]. cbn [digit_ok] in Hc'.
       destruct k; cbn [repeat app] in ER; injection ER as <- _; auto. }
     replace ((d0 =? 48) && ((lower c =? 98) || (lower c =? 111) || (lower c =? 120))) with false; [exact G|].
-    destruct Hc as [->|Hc]; [reflexivity|]. unfold is_dec in Hc.
+    destruct Hc as [->|Hc]; [change (lower c_us) with 95; lia|]. unfold is_dec in Hc.
     destruct (lower_cases c) as [[? E]|[? E]]; rewrite E; lia.
   - destruct up; rewrite underscore_ok_pref by (vm_compute; auto);
       match goal with |- context [lower ?x =? 120] =>
@@ -396,7 +396,7 @@ Lemma int_range_spec neg v bits :
   if ((- 2 ^ (Z.of_N bits - 1) <=? z) && (z <? 2 ^ (Z.of_N bits - 1)))%Z
   then Ok (le_bits bits (twos bits z)) else Err.
 Proof.
-  intros [->|[->|[->|->]]]; unfold int_range_result; cbv zeta; norm_pows;
+  intro Hb; unfold elem_bits in Hb; destruct Hb as [Hb|[Hb|[Hb|Hb]]]; subst bits; unfold int_range_result; cbv zeta; norm_pows;
     destruct neg;
     repeat match goal with
            | |- context [if ?c then _ else _] => destruct c eqn:?
@@ -517,4 +517,336 @@ Proof.
   cbn [i_neg i_base i_upper i_digits]. intros -> Hb Hok Hnu. cbn [sign_chars app].
   unfold impl_uint_elem. rewrite (go_parse_uint_explicit b d bits Hb Hok Hnu).
   destruct (_ <? 2 ^ bits); reflexivity.
+Qed.
+
+(* ------------------------------------------------------------------ *)
+(* escapes and code points                                              *)
+(* ------------------------------------------------------------------ *)
+
+(* the escape table of the CTE specification: r n t, double quote, asterisk,
+   slash, backslash (either case for the letters), backslash-minus = soft
+   hyphen U+00AD, backslash-underscore = no-break space U+00A0 *)
+Definition escape_table : list (N * N) :=
+  [(114, 13); (82, 13); (110, 10); (78, 10); (116, 9); (84, 9);
+   (34, 34); (42, 42); (47, 47); (92, 92); (45, 173); (95, 160)].
+
+Theorem named_escapes_exact c v : escape_char c = Some v <-> In (c, v) escape_table.
+Proof.
+  unfold escape_char, escape_table. cbn [In].
+  split.
+  - repeat match goal with |- context [if ?b then _ else _] => destruct b eqn:? end;
+      intro H; try discriminate; injection H as <-;
+      repeat match goal with H : (_ || _) = true |- _ => apply orb_true_iff in H as [H|H] end;
+      repeat match goal with H : (_ =? _) = true |- _ => apply N.eqb_eq in H; subst end; tauto.
+  - intro H. repeat destruct H as [H|H]; try (injection H as <- <-; reflexivity). contradiction.
+Qed.
+
+Lemma is_hex_digit_ok c : is_hex c = digit_ok B16 c.
+Proof. reflexivity. Qed.
+
+Theorem codepoint_exact (hx : bytes) :
+  hx <> [] -> forallb is_hex hx = true -> hex_val hx < 2 ^ 32 ->
+  impl_codepoint hx = Ok (utf8_enc (hex_val hx)).
+Proof.
+  intros Hne Hh Hlt. unfold impl_codepoint, go_parse_uint, hex_val in *.
+  destruct hx as [|c r]; [congruence|].
+  change (16 =? 0) with false. cbv iota. cbn [andb].
+  change 16 with (ibase_n B16). rewrite (go_digits_chars B16 false (c :: r) 0 Hh).
+  change (ibase_n B16) with 16. cbv beta iota.
+  replace (chars_val 16 (c :: r) 0 <? 2 ^ 32) with true by lia. reflexivity.
+Qed.
+
+Theorem codepoint_too_big (hx : bytes) :
+  hx <> [] -> forallb is_hex hx = true -> 2 ^ 32 <= hex_val hx -> impl_codepoint hx = Err.
+Proof.
+  intros Hne Hh Hlt. unfold impl_codepoint, go_parse_uint, hex_val in *.
+  destruct hx as [|c r]; [congruence|].
+  change (16 =? 0) with false. cbv iota. cbn [andb].
+  change 16 with (ibase_n B16). rewrite (go_digits_chars B16 false (c :: r) 0 Hh).
+  change (ibase_n B16) with 16 in *. cbv beta iota.
+  replace (chars_val 16 (c :: r) 0 <? 2 ^ 32) with false by lia. reflexivity.
+Qed.
+
+(* ------------------------------------------------------------------ *)
+(* float spellings: what the Go parsers read                            *)
+(* ------------------------------------------------------------------ *)
+
+Lemma span_app p a rest :
+  forallb p a = true ->
+  match rest with [] => True | c :: _ => p c = false end ->
+  span p (a ++ rest) = (a, rest).
+Proof.
+  intros Ha Hr. induction a as [|x a IH]; cbn [app].
+  - destruct rest as [|c r]; [reflexivity|]. cbn [span]. rewrite Hr. reflexivity.
+  - cbn [forallb] in Ha. apply andb_true_iff in Ha as [Hx Ha]. cbn [span]. rewrite Hx, (IH Ha). reflexivity.
+Qed.
+
+Definition fdigit (hex : bool) : N -> bool := if hex then is_hex else is_dec.
+Definition fbase (hex : bool) : N := if hex then 16 else 10.
+(* clean (underscore-free) parts of a float spelling *)
+Definition frac_part (fo : option bytes) : bytes := match fo with Some f => c_dot :: f | None => [] end.
+Definition exp_char (hex up : bool) : N :=
+  if hex then (if up then 80 else 112) else (if up then 69 else 101).
+Definition esign_chars (s : option bool) : bytes :=
+  match s with Some true => [c_minus] | Some false => [c_plus] | None => [] end.
+Definition exp_part_chars (hex : bool) (eo : option (bool * option bool * bytes)) : bytes :=
+  match eo with Some (up, sg, ds) => exp_char hex up :: esign_chars sg ++ ds | None => [] end.
+Definition exp_part_val (eo : option (bool * option bool * bytes)) : Z :=
+  match eo with
+  | Some (_, sg, ds) => let v := Z.of_N (chars_val 10 ds 0) in match sg with Some true => (- v)%Z | _ => v end
+  | None => 0%Z
+  end.
+Definition opt_ok {A} (p : A -> bool) (o : option A) : bool := match o with Some a => p a | None => true end.
+Definition nonempty (s : bytes) : bool := match s with [] => false | _ => true end.
+
+Lemma fdigit_dot hex : fdigit hex c_dot = false.
+Proof. destruct hex; reflexivity. Qed.
+Lemma fdigit_exp_char hex up : fdigit hex (exp_char hex up) = false.
+Proof. destruct hex, up; reflexivity. Qed.
+
+Lemma scan_exponent_clean sg ds :
+  nonempty ds = true -> forallb is_dec ds = true ->
+  scan_exponent (esign_chars sg ++ ds) = Some (exp_part_val (Some (false, sg, ds))).
+Proof.
+  intros Hne Hd. unfold scan_exponent, exp_part_val.
+  assert (HE : exp_digits_val ds = Some (chars_val 10 ds 0)).
+  { unfold exp_digits_val. destruct ds; [discriminate|]. rewrite Hd. reflexivity. }
+  destruct sg as [[|]|]; cbn [esign_chars app].
+  - change (c_minus =? c_minus) with true. cbv iota. rewrite HE. reflexivity.
+  - change (c_plus =? c_minus) with false. change (c_plus =? c_plus) with true. cbv iota. rewrite HE. reflexivity.
+  - destruct ds as [|d r]; [discriminate|]. cbn [forallb] in Hd. apply andb_true_iff in Hd as [Hd0 _].
+    unfold is_dec in Hd0.
+    replace (d =? c_minus) with false by (unfold c_minus; lia).
+    replace (d =? c_plus) with false by (unfold c_plus; lia).
+    rewrite HE. reflexivity.
+Qed.
+
+Lemma scan_float_clean hex need ic fo eo :
+  nonempty ic = true -> forallb (fdigit hex) ic = true ->
+  opt_ok (forallb (fdigit hex)) fo = true ->
+  opt_ok (fun e => nonempty (snd e) && forallb is_dec (snd e)) eo = true ->
+  (need = true -> eo <> None) ->
+  scan_float hex need (ic ++ frac_part fo ++ exp_part_chars hex eo)
+  = Some (chars_val (fbase hex) (ic ++ match fo with Some f => f | None => [] end) 0,
+          (exp_part_val eo - Z.of_nat (length (match fo with Some f => f | None => [] end)) * (if hex then 4 else 1))%Z).
+Proof.
+  intros Hne Hic Hfo Heo Hneed.
+  unfold scan_float. fold (fdigit hex). fold (fbase hex).
+  (* integer part *)
+  rewrite (span_app (fdigit hex) ic (frac_part fo ++ exp_part_chars hex eo) Hic).
+  2:{ destruct fo as [f|]; cbn [frac_part app]; [apply fdigit_dot|].
+      destruct eo as [[[up sg] ds]|]; cbn [exp_part_chars]; [apply fdigit_exp_char | exact I]. }
+  (* the exponent part, once the fraction is gone *)
+  assert (HX : forall ds (fcl : nat), nonempty ds = true ->
+    match ds with
+    | [] => None
+    | n :: l =>
+      match exp_part_chars hex eo with
+      | [] => if need then None
+              else Some (chars_val (fbase hex) (n :: l) 0, (- (Z.of_nat fcl * (if hex then 4 else 1)))%Z)
+      | c :: r =>
+        if (if hex then is_p c else is_e c) then
+          match scan_exponent r with
+          | Some e => Some (chars_val (fbase hex) (n :: l) 0, (e - Z.of_nat fcl * (if hex then 4 else 1))%Z)
+          | None => None
+          end
+        else None
+      end
+    end = Some (chars_val (fbase hex) ds 0,
+                (exp_part_val eo - Z.of_nat fcl * (if hex then 4 else 1))%Z)).
+  { intros ds fcl Hn. destruct ds as [|x y]; [discriminate|]. clear Hn.
+    destruct eo as [[[up sg] ds]|]; cbn [exp_part_chars].
+    - cbn [opt_ok snd] in Heo. apply andb_true_iff in Heo as [Hn1 Hd1].
+      replace (if hex then is_p (exp_char hex up) else is_e (exp_char hex up)) with true by (destruct hex, up; reflexivity).
+      rewrite (scan_exponent_clean sg ds Hn1 Hd1). reflexivity.
+    - destruct need; [exfalso; apply Hneed; reflexivity|]. cbn [exp_part_val]. f_equal. }
+  destruct fo as [f|]; cbn [frac_part app].
+  - change (c_dot =? c_dot) with true. cbv iota. cbn [opt_ok] in Hfo.
+    rewrite (span_app (fdigit hex) f (exp_part_chars hex eo) Hfo).
+    2:{ destruct eo as [[[up sg] ds]|]; cbn [exp_part_chars]; [apply fdigit_exp_char | exact I]. }
+    apply HX. destruct ic; [discriminate | reflexivity].
+  - assert (HN : match exp_part_chars hex eo with
+                 | c :: r => if c =? c_dot then span (fdigit hex) r else ([], exp_part_chars hex eo)
+                 | [] => ([], exp_part_chars hex eo)
+                 end = ([], exp_part_chars hex eo)).
+    { destruct eo as [[[up sg] ds]|]; cbn [exp_part_chars]; [|reflexivity].
+      replace (exp_char hex up =? c_dot) with false by (destruct hex, up; reflexivity). reflexivity. }
+    rewrite HN. rewrite !app_nil_r. apply (HX ic O). exact Hne.
+Qed.
+
+(* the clean parts of a float spelling tree *)
+Definition fl_ic (l : float_lit) : bytes := dseq_chars (f_int l).
+Definition fl_fo (l : float_lit) : option bytes := option_map dseq_chars (f_frac l).
+Definition fl_eo (l : float_lit) : option (bool * option bool * bytes) :=
+  option_map (fun e => (e_upper e, e_sign e, dseq_chars (e_digits e))) (f_exp l).
+Definition fl_pfx (l : float_lit) : bytes :=
+  match f_prefix l with Some up => prefix_chars B16 up | None => [] end.
+
+Lemma fdigit_digit_ok hex c : fdigit hex c = digit_ok (if hex then B16 else B10) c.
+Proof. destruct hex; reflexivity. Qed.
+
+Lemma dseq_chars_nonempty d : nonempty (dseq_chars d) = true.
+Proof. reflexivity. Qed.
+
+Lemma strip_render_float l :
+  float_lit_ok l = true ->
+  strip_us (render_float l)
+  = sign_chars (f_neg l) ++ fl_pfx l ++ fl_ic l ++ frac_part (fl_fo l) ++ exp_part_chars (f_hex l) (fl_eo l).
+Proof.
+  destruct l as [neg hex pfx ip fp ex]. unfold float_lit_ok, render_float, fl_pfx, fl_ic, fl_fo, fl_eo, fl_base.
+  cbn [f_neg f_hex f_prefix f_int f_frac f_exp]. intro H.
+  apply andb_true_iff in H as [H H4]. apply andb_true_iff in H as [H H3]. apply andb_true_iff in H as [H1 H2].
+  rewrite !strip_us_app.
+  assert (Es : strip_us (sign_chars neg) = sign_chars neg) by (destruct neg; reflexivity).
+  assert (Ep : forall o : option bool, strip_us (match o with Some up => prefix_chars B16 up | None => [] end)
+               = match o with Some up => prefix_chars B16 up | None => [] end) by (intros [[|]|]; reflexivity).
+  rewrite Es, Ep.
+  rewrite (strip_us_dseq _ _ H1).
+  f_equal. f_equal. f_equal. f_equal.
+  - destruct fp as [d|]; cbn [option_map frac_part]; [|reflexivity].
+    rewrite strip_us_cons by reflexivity. rewrite (strip_us_dseq _ _ H2). reflexivity.
+  - destruct ex as [[up sg ds]|]; cbn [option_map exp_part_chars]; [|reflexivity].
+    unfold render_exp. cbn [e_upper e_sign e_digits] in *.
+    rewrite strip_us_cons by (destruct hex, up; reflexivity).
+    rewrite strip_us_app, (strip_us_dseq _ _ H3).
+    unfold exp_char. destruct sg as [[|]|]; destruct hex, up; reflexivity.
+Qed.
+
+Lemma float_mant_clean l :
+  float_mant l = chars_val (fbase (f_hex l)) (fl_ic l ++ match fl_fo l with Some f => f | None => [] end) 0.
+Proof.
+  unfold float_mant, fl_ic, fl_fo, frac_chars, fl_base, fbase. destruct (f_hex l), (f_frac l); reflexivity.
+Qed.
+
+Lemma float_exp_clean l :
+  float_exp l = (exp_part_val (fl_eo l)
+                 - Z.of_nat (length (match fl_fo l with Some f => f | None => [] end)) * (if f_hex l then 4 else 1))%Z.
+Proof.
+  unfold float_exp, exp_value, fl_eo, fl_fo, frac_chars, exp_part_val, dseq_val.
+  destruct (f_exp l) as [[up sg ds]|], (f_frac l); cbn [option_map e_sign e_digits ibase_n]; reflexivity.
+Qed.
+
+(* the exponent the hex route always has after normalisation *)
+Definition with_p0 (eo : option (bool * option bool * bytes)) : option (bool * option bool * bytes) :=
+  match eo with None => Some (false, None, [48]) | _ => eo end.
+
+Lemma exp_part_val_p0 eo : exp_part_val (with_p0 eo) = exp_part_val eo.
+Proof. destruct eo as [[[? ?] ?]|]; reflexivity. Qed.
+
+Lemma has_p_app a b : has_p (a ++ b) = has_p a || has_p b.
+Proof. unfold has_p. apply existsb_app. Qed.
+
+Lemma has_p_digits hex s : forallb (fdigit hex) s = true -> has_p s = false.
+Proof.
+  induction s as [|c r IH]; intro H; [reflexivity|]. cbn [forallb] in H. apply andb_true_iff in H as [Hc Hr].
+  unfold has_p in *. cbn [existsb]. rewrite (IH Hr), orb_false_r.
+  unfold is_p. destruct hex; cbn [fdigit] in Hc; unfold is_hex, is_dec, is_hexletter in Hc;
+    destruct (lower_cases c) as [[? E]|[? E]]; rewrite E in *; lia.
+Qed.
+
+Definition ctx_ok (b16 : bool) (l : float_lit) : bool :=
+  if b16 then f_hex l && match f_prefix l with None => true | Some _ => false end
+  else Bool.eqb (f_hex l) (match f_prefix l with None => false | Some _ => true end).
+
+(* the prefix after normalisation: "0x" is added in an x-array *)
+Definition norm_pfx (l : float_lit) : bytes :=
+  if f_hex l then match f_prefix l with Some up => prefix_chars B16 up | None => [48; 120] end else [].
+Definition norm_eo (l : float_lit) := if f_hex l then with_p0 (fl_eo l) else fl_eo l.
+
+Lemma float_ok_parts l :
+  float_lit_ok l = true ->
+  forallb (fdigit (f_hex l)) (fl_ic l) = true /\
+  opt_ok (forallb (fdigit (f_hex l))) (fl_fo l) = true /\
+  opt_ok (fun e => nonempty (snd e) && forallb is_dec (snd e)) (fl_eo l) = true.
+Proof.
+  destruct l as [neg hex pfx ip fp ex]. unfold float_lit_ok, fl_ic, fl_fo, fl_eo, fl_base, dseq_ok.
+  cbn [f_neg f_hex f_prefix f_int f_frac f_exp]. intro H.
+  apply andb_true_iff in H as [H H4]. apply andb_true_iff in H as [H H3]. apply andb_true_iff in H as [H1 H2].
+  repeat split.
+  - destruct hex; exact H1.
+  - destruct fp; cbn [option_map opt_ok]; [destruct hex; exact H2 | reflexivity].
+  - destruct ex as [[up sg ds]|]; cbn [option_map opt_ok snd e_digits] in *; [|reflexivity]. exact H3.
+Qed.
+
+Lemma normalize_render l b16 :
+  float_lit_ok l = true -> ctx_ok b16 l = true ->
+  normalize_float (render_float l) b16
+  = sign_chars (f_neg l) ++ norm_pfx l ++ fl_ic l ++ frac_part (fl_fo l) ++ exp_part_chars (f_hex l) (norm_eo l).
+Proof.
+  intros Hok Hctx. destruct (float_ok_parts l Hok) as [Hic [Hfo Heo]].
+  unfold normalize_float. rewrite (strip_render_float l Hok).
+  unfold ctx_ok, norm_pfx, norm_eo, fl_pfx in *.
+  set (ic := fl_ic l) in *. set (fo := fl_fo l) in *. set (eo := fl_eo l) in *.
+  assert (Hicne : exists d0 ir, ic = d0 :: ir) by (unfold ic, fl_ic, dseq_chars; eauto).
+  destruct Hicne as [d0 [ir Eic]].
+  assert (Hd0 : fdigit (f_hex l) d0 = true) by (rewrite Eic in Hic; cbn [forallb] in Hic; apply andb_true_iff in Hic; tauto).
+  assert (HP : f_hex l = true ->
+               has_p (ic ++ frac_part fo ++ exp_part_chars (f_hex l) eo) = match eo with Some _ => true | None => false end).
+  { intro Eh. rewrite !has_p_app, (has_p_digits _ _ Hic).
+    replace (has_p (frac_part fo)) with false.
+    2:{ destruct fo as [f|]; cbn [frac_part]; [|reflexivity]. cbn [opt_ok] in Hfo.
+        unfold has_p. cbn [existsb]. fold (has_p f). rewrite (has_p_digits _ _ Hfo). reflexivity. }
+    destruct eo as [[[up sg] ds]|]; cbn [exp_part_chars]; [|reflexivity].
+    unfold has_p. cbn [existsb]. rewrite Eh. destruct up; reflexivity. }
+  destruct (f_hex l) eqn:Eh; destruct (f_prefix l) as [up|] eqn:Ep; destruct b16; cbn [andb Bool.eqb] in Hctx; try discriminate.
+  - (* prefixed hex in an implicit-base context *)
+    cbn [orb].
+    assert (E1 : is_neg_text (sign_chars (f_neg l) ++ prefix_chars B16 up ++ ic ++ frac_part fo ++ exp_part_chars true eo) = f_neg l)
+      by (destruct (f_neg l), up; reflexivity).
+    rewrite E1.
+    assert (E2 : (if f_neg l then tl (sign_chars (f_neg l) ++ prefix_chars B16 up ++ ic ++ frac_part fo ++ exp_part_chars true eo)
+                  else sign_chars (f_neg l) ++ prefix_chars B16 up ++ ic ++ frac_part fo ++ exp_part_chars true eo)
+                 = prefix_chars B16 up ++ ic ++ frac_part fo ++ exp_part_chars true eo)
+      by (destruct (f_neg l); reflexivity).
+    rewrite E2.
+    replace ((2 <? N.of_nat (length (prefix_chars B16 up ++ ic ++ frac_part fo ++ exp_part_chars true eo)))
+             && hex_prefixed (prefix_chars B16 up ++ ic ++ frac_part fo ++ exp_part_chars true eo)) with true.
+    2:{ rewrite Eic. destruct up; cbn [prefix_chars app length hex_prefixed]; symmetry; apply andb_true_iff; split; try reflexivity; lia. }
+    rewrite has_p_app, has_p_app. replace (has_p (sign_chars (f_neg l))) with false by (destruct (f_neg l); reflexivity).
+    replace (has_p (prefix_chars B16 up)) with false by (destruct up; reflexivity).
+    cbn [orb]. rewrite (HP eq_refl).
+    destruct eo as [[[up' sg] ds]|]; cbn [negb with_p0].
+    + reflexivity.
+    + cbn [exp_part_chars]. rewrite !app_nil_r. rewrite <- !app_assoc. reflexivity.
+  - (* x-array: "0x" is inserted *)
+    cbn [orb app].
+    assert (E1 : is_neg_text (sign_chars (f_neg l) ++ ic ++ frac_part fo ++ exp_part_chars true eo) = f_neg l).
+    { destruct (f_neg l); [reflexivity|]. rewrite Eic. cbn [sign_chars app is_neg_text].
+      rewrite fdigit_digit_ok in Hd0. apply digit_ok_range in Hd0. unfold c_minus. lia. }
+    rewrite E1.
+    assert (E3 : (if f_neg l
+                  then 45 :: 48 :: 120 :: (if f_neg l then tl (sign_chars (f_neg l) ++ ic ++ frac_part fo ++ exp_part_chars true eo)
+                                           else sign_chars (f_neg l) ++ ic ++ frac_part fo ++ exp_part_chars true eo)
+                  else 48 :: 120 :: sign_chars (f_neg l) ++ ic ++ frac_part fo ++ exp_part_chars true eo)
+                 = sign_chars (f_neg l) ++ [48; 120] ++ ic ++ frac_part fo ++ exp_part_chars true eo)
+      by (destruct (f_neg l); reflexivity).
+    rewrite E3.
+    rewrite has_p_app, has_p_app. replace (has_p (sign_chars (f_neg l))) with false by (destruct (f_neg l); reflexivity).
+    change (has_p [48; 120]) with false. cbn [orb]. rewrite (HP eq_refl).
+    destruct eo as [[[up' sg] ds]|]; cbn [negb with_p0].
+    + reflexivity.
+    + cbn [exp_part_chars]. rewrite !app_nil_r. rewrite <- !app_assoc. reflexivity.
+  - (* decimal *)
+    cbn [orb app].
+    assert (E1 : is_neg_text (sign_chars (f_neg l) ++ ic ++ frac_part fo ++ exp_part_chars false eo) = f_neg l).
+    { destruct (f_neg l); [reflexivity|]. rewrite Eic. cbn [sign_chars app is_neg_text].
+      cbn [fdigit] in Hd0. unfold is_dec, c_minus in *. lia. }
+    rewrite E1.
+    assert (E2 : (if f_neg l then tl (sign_chars (f_neg l) ++ ic ++ frac_part fo ++ exp_part_chars false eo)
+                  else sign_chars (f_neg l) ++ ic ++ frac_part fo ++ exp_part_chars false eo)
+                 = ic ++ frac_part fo ++ exp_part_chars false eo) by (destruct (f_neg l); reflexivity).
+    rewrite E2.
+    replace (hex_prefixed (ic ++ frac_part fo ++ exp_part_chars false eo)) with false; [rewrite andb_false_r; reflexivity|].
+    rewrite Eic. cbn [app hex_prefixed fdigit] in *.
+    destruct (ir ++ frac_part fo ++ exp_part_chars false eo) as [|c2 r2] eqn:E; [reflexivity|].
+    assert (Hc2 : lower c2 <> 120).
+    { destruct ir as [|i1 ir'].
+      - cbn [app] in E. destruct fo as [f|]; cbn [frac_part app] in E.
+        + injection E as <- _. discriminate.
+        + destruct eo as [[[up' sg] ds]|]; cbn [exp_part_chars] in E; [|discriminate].
+          injection E as <- _. destruct up'; discriminate.
+      - cbn [app] in E. injection E as <- _. rewrite Eic in Hic. cbn [forallb fdigit] in Hic.
+        apply andb_true_iff in Hic as [_ Hic]. apply andb_true_iff in Hic as [Hi1 _]. unfold is_dec in Hi1.
+        destruct (lower_cases i1) as [[? E']|[? E']]; rewrite E'; lia. }
+    lia.
 Qed.
